@@ -245,7 +245,7 @@ Theorem C07_iradon_batched_eq_single :
 Proof. exact iradon_batched_eq_single. Qed.
 Print Assumptions C07_iradon_batched_eq_single.
 
-(* the code before fixes/C07-iradon-circle-padding-v2.diff and
+(* the code before fixes/C07-iradon-circle-padding.diff and
    fixes/C07-iradon-default-theta-endpoint.diff, isolated causes:
    (1) FFT length from N instead of the padded detector (N = 31: 64 vs 128 frequencies);
    (2) no left/right = 0: extrapolation beyond the last detector pixel;
